@@ -10,6 +10,7 @@ structure St where
   cfg : Option NetCfg
   ids : Nat
   net : Net
+  wal : Bool := false     -- `wal=1` on the net line: the real nodes keep a WAL, `restart` ops are real restarts
 
 def natList (s : String) : Option (List Nat) := (splitComma s).mapM String.toNat?
 
@@ -77,6 +78,9 @@ def parseOp (toks : List String) : Option Op :=
   | "txs" :: rest => do
     let p ← (← kv rest "node").toNat?
     pure (.txs p)
+  | "restart" :: rest => do
+    let p ← (← kv rest "node").toNat?
+    pure (.restart p)
   | "own" :: rest => do
     let p ← (← kv rest "node").toNat?
     let k ← (← kv rest "idx").toNat?
@@ -108,7 +112,7 @@ def parseOp (toks : List String) : Option Op :=
 
 def opNode : Op → Option Nat
   | .deliver p _ _ => some p | .block p _ => some p | .claim p _ _ _ _ => some p
-  | .fire p _ _ => some p | .txs p => some p | .own p _ => some p | .byz _ => none
+  | .fire p _ _ => some p | .txs p => some p | .own p _ => some p | .restart p => some p | .byz _ => none
 
 /-- `drain=0` on a node op: the node handles the input only and leaves its own messages queued
 (they are heard later through `own` ops, in any order); default: FIFO drain as `Tmv.Cons.step` -/
@@ -178,7 +182,7 @@ def step (st : St) (toks : List String) : St × String :=
   match toks with
   | "net" :: rest =>
     match parseCfg rest with
-    | some (c, ids) => ({ cfg := some c, ids := ids, net := Net.init }, "ok")
+    | some (c, ids) => ({ cfg := some c, ids := ids, net := Net.init, wal := kv rest "wal" == some "1" }, "ok")
     | none => (st, "bad-op")
   | _ =>
     match st.cfg, parseOp toks, parseDrain toks with
@@ -202,14 +206,19 @@ def step (st : St) (toks : List String) : St × String :=
                   "," ++ (if commitVerifies (nc.node p) flags then "ok" else "bad") ++ ")"
               | none => " commit(-,bad)"
             else ""
-          (st', s!"n{p} " ++ showState (nc.node p) st.ids s' ++ " |" ++ showNew news st.net.log.length ++ commit)
+          -- a restart of a live node replays its WAL (walcatchup): the node state simply persists
+          let restarted :=
+            match op with
+            | .restart _ => if st.wal ∧ ¬ (old.halted ∨ old.decided.isSome) then " restarted(walcatchup=true)" else ""
+            | _ => ""
+          (st', s!"n{p} " ++ showState (nc.node p) st.ids s' ++ " |" ++ showNew news st.net.log.length ++ commit ++ restarted)
         | none =>
           match op with
           | .byz m => (st', s!"+{st.net.log.length} " ++ showMsg m)
           | _ => (st', "ok")
     | _, _, _ => (st, "bad-op")
 
-def machine : Machine := { σ := St, init := ⟨none, 0, Net.init⟩, step := step }
+def machine : Machine := { σ := St, init := ⟨none, 0, Net.init, false⟩, step := step }
 
 end Tmv.Drv.C01
 
